@@ -50,12 +50,13 @@ PROPS["C06"] = {
 }
 
 PROPS["C18"] = {
-    "units": ["sched", "run"],
-    "probes": {"sched": ["work::Work::want_file", "work::Work::want_every_file", "work::BuildStates::want_build"], "run": ["run::build"]},
+    "units": ["sched", "run", "load"],
+    "probes": {"sched": ["work::Work::want_file", "work::Work::want_every_file", "work::BuildStates::want_build"], "run": ["run::build"], "load": ["load::read"]},
     "level": "proof",
     "assumptions": SCHED_ASSUME + ["target selection (command-line names, else `default`, else every file; unknown name => error before anything runs) lives in run::build and is not under contract yet (unit run)",
         "'no step outside the closure is ever run' is decided through C01 (a command starts only from state Queued, reached only from Ready/Want, reached only inside want_build); the converse 'only reachable builds are wanted' is not stated as a clause",
-        "-f / -C / builddir are process-level configuration: not decided"],
+        "-f / -C / builddir are process-level configuration: not decided",
+        "KNOWN FINDING D14 (unit load): load::read leaves log-only names in the file table that Work::lookup resolves command-line names against, so a name that occurs nowhere in the manifest but is known to .n2_db is accepted"],
 }
 PROPS["C19"] = {
     "units": ["sched", "dirty", "run"],
